@@ -279,6 +279,13 @@ func submittedFor(rng *gen.RNG, key []byte, centre uint64, skew uint64, digits, 
 			notes = append(notes, "hostile string")
 		}
 	}
+	// look-alikes of every genuine code that begins with '0' (numeric parsing would accept "+…" / " …")
+	for _, g := range append([]string{}, subs...) {
+		if len(g) > 1 && g[0] == '0' && isDigits(g) {
+			subs = append(subs, "+"+g[1:], " "+g[1:], "-"+g[1:])
+			notes = append(notes, "hostile string", "hostile string", "hostile string")
+		}
+	}
 	return
 }
 
@@ -298,7 +305,7 @@ func c03Cases(c *Ctx, emit func(vhotpCase)) {
 				}
 				d := digitSet[rng.Intn(len(digitSet))]
 				a := rng.Intn(3)
-				subs, notes := submittedFor(rng, key, ctr, skew, d, a, rng.Intn(4) == 0)
+				subs, notes := submittedFor(rng, key, ctr, skew, d, a, rng.Intn(2) == 0)
 				for i, sub := range subs {
 					emit(vhotpCase{KeyHex: hexs(key), Secret: gen.Spell(rng, enc, rng.Intn(gen.NSpellings)), Counter: ctr, Skew: skew, Digits: uint8(d), Algo: uint8(a), Submitted: hexs([]byte(sub)), Note: notes[i]})
 				}
@@ -379,7 +386,7 @@ func c04Cases(c *Ctx, emit func(vtotpCase)) {
 			step := uint64(unix) / pp
 			d := digitSet[rng.Intn(len(digitSet))]
 			a := rng.Intn(3)
-			subs, notes := submittedFor(rng, key, step, skew, d, a, rng.Intn(4) == 0)
+			subs, notes := submittedFor(rng, key, step, skew, d, a, rng.Intn(2) == 0)
 			for i, sub := range subs {
 				emit(vtotpCase{KeyHex: hexs(key), Secret: gen.Spell(rng, enc, rng.Intn(gen.NSpellings)), At: rng.InstantSpec(unix), Period: period, Skew: skew, Digits: uint8(d), Algo: uint8(a), Submitted: hexs([]byte(sub)), Note: notes[i]})
 			}
